@@ -9,6 +9,7 @@ from harness.ns import QNAMES
 
 ID = "C15"
 LEAN_MODULES = ["Pypika.Props.C15"]
+TRACE_BUILDER = True   # builder calls made by this check are also run through Pypika.B.step (harness/trace.py)
 THEOREMS = ["Pypika.C15.replaces_target", "Pypika.C15.others_untouched", "Pypika.C15.target_gone", "Pypika.C15.replace_map",
             "Pypika.C15.coverage", "Pypika.C15.named_positions",
             "Pypika.C15.map_agree", "Pypika.C15.map_comp", "Pypika.C15.replace_eq_subst_partial", "Pypika.C15.replaceQ_eq_subst_partial",
